@@ -13,9 +13,11 @@ package dnsserver_test
 import (
 	"context"
 	"encoding/binary"
+	"fmt"
 	"io"
 	"math/rand"
 	"net"
+	"net/url"
 	"strings"
 	"sync"
 	"testing"
@@ -118,6 +120,9 @@ func (d *c08DC) exchange(network string, payload []byte, wait time.Duration) (re
 var c08Via = []struct{ via, proto string }{
 	{"udp", "dns-udp"}, {"tcp", "dns-tcp"}, {"dot", "dot"}, {"doh-post", "doh"}, {"doh-get", "doh"}, {"doq", "doq"},
 	{"dnscrypt-udp", "dnscrypt-udp"}, {"dnscrypt-tcp", "dnscrypt-tcp"},
+	// the JSON API asked for a wire-format answer (/resolve?...&ct=application/dns-message):
+	// the server builds the query itself (OPT with size 65535 iff do=1 or sde=1)
+	{"doh-json-wire", "doh"},
 }
 
 // advertised sizes usable over a loopback datagram socket (one datagram
@@ -159,6 +164,12 @@ func TestVerifC08Sock(t *testing.T) {
 			// RFC 9250 5.5.2: a DoQ query with edns-tcp-keepalive is a protocol
 			// error (validQUICMsg closes the connection), not a valid input
 			c.Req.KA = false
+		}
+		if v.via == "doh-json-wire" {
+			c.Req.Pad, c.Req.KA, c.Req.NSID, c.Req.PadLen, c.Req.NSIDLen = false, false, false, 0, 0
+			if c.Req.Opt {
+				c.Req.Size = dns.MaxMsgSize
+			}
 		}
 		if v.proto == "dns-udp" && c.Req.NSIDLen > 4 {
 			// the plain-DNS server reads datagrams into ConfigDNS.UDPSize = 512
@@ -208,6 +219,22 @@ func TestVerifC08Sock(t *testing.T) {
 			replies, enc, note = dc.exchange("udp", payload, 8*main.Wait)
 		case "dnscrypt-tcp":
 			replies, enc, note = dc.exchange("tcp", payload, 8*main.Wait)
+		case "doh-json-wire":
+			q := url.Values{"name": {name}, "type": {fmt.Sprint(req.Question[0].Qtype)}, "ct": {"application/dns-message"}}
+			if j.c.Req.Opt && j.c.Req.Do {
+				q.Set("do", "1")
+			} else if j.c.Req.Opt {
+				q.Set("sde", "1")
+			}
+			status, body, jerr := main.SendJSON(q.Encode())
+			switch {
+			case jerr != nil:
+				note = "err:" + jerr.Error()
+			case status != 200:
+				note = fmt.Sprintf("http %d", status)
+			default:
+				replies = [][]byte{body}
+			}
 		default:
 			r := labs[j.c.Cfg].SendRaw(j.via, payload)
 			replies, note = r.Replies, r.Note
